@@ -409,6 +409,8 @@ class Domain:
         self.boundary = boundary
         self.grid = grid
         self.pairing = pairing
+        # largest index of an admissible state, set by compute_total_number_of_states_and_frontier
+        self.max_state_index = -1
 
     def outside(self, x: Coordinates) -> bool:
         y = np.atleast_1d(x)
@@ -424,6 +426,7 @@ class Domain:
             res = deque()
             res.appendleft(left_index)
             res.appendleft(right_index)
+            self.max_state_index = max(left_index, right_index)
             return res
 
         # exhaust all possible states and
@@ -460,6 +463,11 @@ class Domain:
                 )
                 all_states.append(pairing.pair(state_increment))
 
+            admissible_states = [x for x, y in zip(all_states, outside_states) if not y]
+            if admissible_states:
+                # the state of largest index is not necessarily one of the frontier states recorded below
+                self.max_state_index = max(self.max_state_index, max(admissible_states))
+
             if not all(outside_states):
                 frontier_left_index = next(
                     x for x, y in zip(all_states, outside_states) if not y
@@ -489,7 +497,7 @@ class StatesManager:
         """
         frontier_states = domain.compute_total_number_of_states_and_frontier()
         self.frontier_states_indices = frontier_states
-        self.max_frontier_indices = max(frontier_states)
+        self.max_frontier_indices = max(max(frontier_states), domain.max_state_index)
         self.domain = domain
         self.origin_coordinates = grid.origin_coordinate
         self.grid = grid
